@@ -14,7 +14,7 @@ import (
 func init() {
 	register(&Spec{ID: "C15", Title: "The packet queue behaves as a byte FIFO across packet boundaries", Run: runC15,
 		Meta: core.Meta{
-			Explanation: "Clauses of the FIFO property whose truth is in the shape of the code; the step-by-step equality with a flat byte model is not decided. R15.1 (io.Reader / io.Writer clause): in every method of the module with the io.Reader signature the caller's slice is written (operand of copy, of an element store, or handed to a callee that does); PacketQueue.Write hands its slice to WriteBytes. R15.2 (typed read/write sibling table): UintK = Bytes(K/8) + endian.UintK, WriteUintK = make([]byte, K/8) + endian.PutUintK + WriteBytes, IntK/WriteIntK delegate to the unsigned sibling of the same width through a conversion, Byte/WriteByte use one byte, String/WriteString delegate to Bytes/WriteBytes; the package-level `endian` is assigned nowhere after its initialiser. R15.3: Bytes returns only nil/ErrNotEnoughBytes and succeeds only when n bytes were copied (C07 R07.2). R15.4: Reset assigns all four state fields. R15.5: AllPacketsConsumed's answer always depends on the packet index having reached the end of the queue: every non-false answer is a comparison of indexPacket with len(queue), or is computed under such a comparison. R15.6: the live packet size (packetSize()) only sizes NEW packets; free space in the packet being filled is computed from that packet's own header length/body (a size change while a packet is partly filled must not change its capacity). R15.7: DiscardUntilCurrentPosition evaluates its end-of-packet test after the queue was shifted and indexPacket reset, on queue[indexPacket] (the packet under the position). The test includes equality (indexData >= len or == len): a packet consumed exactly to its end is dropped. R15.11: every error return of Bytes lies on the true edge of AllPacketsConsumed() — an empty or exhausted packet in front of further data is stepped over, not reported as the end. R15.13: every NewPacket call of WriteBytes is guarded by a comparison of indexPacket with len(queue) or by `free bytes == 0` computed from the current packet's own Header.Length. R15.12 (E-OWN): every store to Packet.Data in the module assigns nil, a slice allocated by make in the same function, or a slice of the same packet's Data; storing (a slice of) a caller's buffer would make later reads return whatever the caller writes into it afterwards. R15.8: AddPacket changes nothing but recvEOM and queue = append(queue, packet). R15.10: SetPosition stores both of its parameters into indexPacket/indexData on every path (a position obtained from Position() is always a valid position, including the one just behind the last packet). R15.1 also requires that Read asks Bytes for exactly len(p) bytes of its parameter and copies into that parameter. R15.9 = R02.6 (read results are fresh buffers).",
+			Explanation: "Clauses of the FIFO property whose truth is in the shape of the code; the step-by-step equality with a flat byte model is not decided. R15.1 (io.Reader / io.Writer clause): in every method of the module with the io.Reader signature the caller's slice is written (operand of copy, of an element store, or handed to a callee that does); PacketQueue.Write hands its slice to WriteBytes. R15.2 (typed read/write sibling table): UintK = Bytes(K/8) + endian.UintK, WriteUintK = make([]byte, K/8) + endian.PutUintK + WriteBytes, IntK/WriteIntK delegate to the unsigned sibling of the same width through a conversion, Byte/WriteByte use one byte, String/WriteString delegate to Bytes/WriteBytes; the package-level `endian` is assigned nowhere after its initialiser. R15.3: Bytes returns only nil/ErrNotEnoughBytes and succeeds only when n bytes were copied (C07 R07.2). R15.4: Reset assigns all four state fields. R15.5: AllPacketsConsumed's answer always depends on the packet index having reached the end of the queue: every non-false answer is a comparison of indexPacket with len(queue), or is computed under such a comparison. R15.6: the live packet size (packetSize()) only sizes NEW packets; free space in the packet being filled is computed from that packet's own header length/body (a size change while a packet is partly filled must not change its capacity). R15.7: DiscardUntilCurrentPosition evaluates its end-of-packet test after the queue was shifted and indexPacket reset, on queue[indexPacket] (the packet under the position). The test includes equality (indexData >= len or == len): a packet consumed exactly to its end is dropped. R15.11: every error return of Bytes lies on the true edge of AllPacketsConsumed() — an empty or exhausted packet in front of further data is stepped over, not reported as the end. R15.14 (E-OWN): none of the typed readers/writers accesses queue, indexPacket or indexData itself. R15.13: every NewPacket call of WriteBytes is guarded by a comparison of indexPacket with len(queue) or by `free bytes == 0` computed from the current packet's own Header.Length. R15.12 (E-OWN): every store to Packet.Data in the module assigns nil, a slice allocated by make in the same function, or a slice of the same packet's Data; storing (a slice of) a caller's buffer would make later reads return whatever the caller writes into it afterwards. R15.8: AddPacket changes nothing but recvEOM and queue = append(queue, packet). R15.10: SetPosition stores both of its parameters into indexPacket/indexData on every path (a position obtained from Position() is always a valid position, including the one just behind the last packet). R15.1 also requires that Read asks Bytes for exactly len(p) bytes of its parameter and copies into that parameter. R15.9 = R02.6 (read results are fresh buffers).",
 			NotDecided:  "Copy arithmetic across packets, discard, fill order and position save/restore semantics are not decided.",
 			Assumptions: []string{"encoding/binary ByteOrder semantics"},
 		}})
@@ -30,6 +30,7 @@ func runC15(r *core.Run) {
 	r.Rule("R15.5", "AllPacketsConsumed depends on the packet index reaching the end of the queue", 1, false)
 	r.Rule("R15.7", "DiscardUntilCurrentPosition drops the packet under the position only, after the shift", 1, false)
 	r.Rule("R15.11", "Bytes reports not-enough-bytes only when every queued packet is consumed", 1, false)
+	r.Rule("R15.14", "typed readers and writers touch the stream only through Bytes / WriteBytes", 20, false)
 	r.Rule("R15.13", "WriteBytes opens a packet only when none is under the write index or the current one is full", 2, false)
 	r.Rule("R15.12", "packet bodies are the queue's own memory: Packet.Data is assigned nil, a fresh make, or a slice of itself", 4, false)
 	r.Rule("R15.8", "AddPacket only appends: it neither moves the position nor drops queued packets", 1, false)
@@ -73,6 +74,7 @@ func runC15(r *core.Run) {
 	c15BytesFailsOnlyWhenEmpty(r)
 	c15DataOwnership(r)
 	c15NewPacketGuards(r)
+	c15TypedThroughBytes(r)
 	c15AddPacket(r)
 	c15SetPosition(r)
 	c15ReadExact(r)
@@ -161,41 +163,45 @@ func c15Siblings(r *core.Run) {
 		u, ok := cc.Value.(*ssa.UnOp)
 		return ok && u.X == ssa.Value(endian)
 	}
-	for k, w := range widths {
-		// reader
-		rd := p.Func("tds", "PacketQueue", "Uint"+k)
-		ok := false
-		for _, c := range callsTo(rd, bytesFn) {
+	readsWidth := func(fn *ssa.Function, k string, w int64) bool {
+		for _, c := range callsTo(fn, bytesFn) {
 			if n, isC := core.ConstInt64(c.Common().Args[1]); isC && n == w {
-				for _, c2 := range core.Calls(rd) {
+				for _, c2 := range core.Calls(fn) {
 					if usesEndian(c2, "Uint"+k) {
-						ok = true
+						return true
 					}
 				}
 			}
 		}
-		r.Check(ok, "R15.2", "Uint"+k+" = Bytes("+fmtInt(w)+") + endian.Uint"+k, rd.Pos(), "width and decoder agree", "Uint"+k+" does not read "+fmtInt(w)+" bytes and decode them with endian.Uint"+k)
-		// writer
-		wrf := p.Func("tds", "PacketQueue", "WriteUint"+k)
-		okw := false
-		for _, c2 := range core.Calls(wrf) {
+		return false
+	}
+	writesWidth := func(fn *ssa.Function, k string, w int64) bool {
+		for _, c2 := range core.Calls(fn) {
 			if usesEndian(c2, "PutUint"+k) {
 				buf := c2.Common().Args[0]
 				if n, isC := core.MakeLen(buf); isC && n == w {
-					for _, c3 := range callsTo(wrf, wbFn) {
+					for _, c3 := range callsTo(fn, wbFn) {
 						if c3.Common().Args[1] == buf {
-							okw = true
+							return true
 						}
 					}
 				}
 			}
 		}
-		r.Check(okw, "R15.2", "WriteUint"+k+" = make("+fmtInt(w)+") + endian.PutUint"+k+" + WriteBytes", wrf.Pos(), "width and encoder agree", "WriteUint"+k+" does not encode into a "+fmtInt(w)+"-byte buffer with endian.PutUint"+k+" and queue exactly that buffer")
-		// signed delegates
+		return false
+	}
+	for k, w := range widths {
+		// reader
+		rd := p.Func("tds", "PacketQueue", "Uint"+k)
+		r.Check(readsWidth(rd, k, w), "R15.2", "Uint"+k+" = Bytes("+fmtInt(w)+") + endian.Uint"+k, rd.Pos(), "width and decoder agree", "Uint"+k+" does not read "+fmtInt(w)+" bytes and decode them with endian.Uint"+k)
+		// writer
+		wrf := p.Func("tds", "PacketQueue", "WriteUint"+k)
+		r.Check(writesWidth(wrf, k, w), "R15.2", "WriteUint"+k+" = make("+fmtInt(w)+") + endian.PutUint"+k+" + WriteBytes", wrf.Pos(), "width and encoder agree", "WriteUint"+k+" does not encode into a "+fmtInt(w)+"-byte buffer with endian.PutUint"+k+" and queue exactly that buffer")
+		// the signed variants: through the unsigned sibling of the same width, or the same read/write themselves
 		ri := p.Func("tds", "PacketQueue", "Int"+k)
-		r.Check(len(callsTo(ri, rd)) == 1, "R15.2", "Int"+k+" delegates to Uint"+k, ri.Pos(), "same width through a conversion", "Int"+k+" does not delegate to Uint"+k)
+		r.Check(len(callsTo(ri, rd)) == 1 || readsWidth(ri, k, w), "R15.2", "Int"+k+" delegates to Uint"+k, ri.Pos(), "same width through a conversion", "Int"+k+" neither delegates to Uint"+k+" nor reads "+fmtInt(w)+" bytes with endian.Uint"+k+" itself: it consumes a different number of bytes than WriteInt"+k+" produces")
 		wi := p.Func("tds", "PacketQueue", "WriteInt"+k)
-		r.Check(len(callsTo(wi, wrf)) == 1, "R15.2", "WriteInt"+k+" delegates to WriteUint"+k, wi.Pos(), "same width through a conversion", "WriteInt"+k+" does not delegate to WriteUint"+k)
+		r.Check(len(callsTo(wi, wrf)) == 1 || writesWidth(wi, k, w), "R15.2", "WriteInt"+k+" delegates to WriteUint"+k, wi.Pos(), "same width through a conversion", "WriteInt"+k+" neither delegates to WriteUint"+k+" nor encodes "+fmtInt(w)+" bytes with endian.PutUint"+k+" itself")
 	}
 	// one-byte family
 	byteFn := p.Func("tds", "PacketQueue", "Byte")
@@ -732,5 +738,48 @@ func c15NewPacketGuards(r *core.Run) {
 	}
 	if n == 0 {
 		r.Unknown("R15.13", "WriteBytes: packet creation", fn.Pos(), "no NewPacket call found in WriteBytes or its helpers")
+	}
+}
+
+// c15TypedThroughBytes: R15.14. The typed readers and writers (Byte, UintK, IntK, String, Read, Write, WriteByte,
+// WriteUintK, WriteIntK, WriteString) work on the byte stream only through Bytes / WriteBytes: none of them touches
+// the queue, the packet index or the data index itself. A fast path that serves a value straight from the current
+// packet has to repeat the position bookkeeping of Bytes (step to the next packet at a packet end, report missing
+// bytes) and is where the stream gets out of step.
+func c15TypedThroughBytes(r *core.Run) {
+	p := r.Prog
+	pq := p.Named("tds", "PacketQueue")
+	fields := map[*types.Var]bool{
+		p.Field("tds", "PacketQueue", "queue"):       true,
+		p.Field("tds", "PacketQueue", "indexPacket"): true,
+		p.Field("tds", "PacketQueue", "indexData"):   true,
+	}
+	core_ := map[string]bool{"Reset": true, "AddPacket": true, "Position": true, "SetPosition": true, "DiscardUntilCurrentPosition": true,
+		"AllPacketsConsumed": true, "IsEOM": true, "Bytes": true, "WriteBytes": true}
+	n := 0
+	for _, fn := range p.ModuleFuncs() {
+		if fn.Blocks == nil || core.RecvNamed(fn) == nil || core.RecvNamed(fn).Obj() != pq.Obj() || fn.Parent() != nil {
+			continue
+		}
+		name := fn.Name()
+		typed := name == "Byte" || name == "String" || name == "Read" || name == "Write" || strings.HasPrefix(name, "Uint") || strings.HasPrefix(name, "Int") || strings.HasPrefix(name, "Write")
+		if !typed || core_[name] {
+			continue
+		}
+		n++
+		bad := ""
+		var pos = fn.Pos()
+		for _, b := range fn.Blocks {
+			for _, in := range b.Instrs {
+				if fa, ok := in.(*ssa.FieldAddr); ok && fields[core.FieldOfAddr(fa)] {
+					bad = name + " accesses PacketQueue." + core.FieldOfAddr(fa).Name() + " directly instead of going through Bytes/WriteBytes: the position bookkeeping at packet ends (and the not-enough-bytes report) is duplicated here and can disagree with the one every other read relies on"
+					pos = fa.Pos()
+				}
+			}
+		}
+		r.Check(bad == "", "R15.14", "PacketQueue."+name+" works through Bytes/WriteBytes only", pos, "no direct access to queue / indexPacket / indexData", bad)
+	}
+	if n < 20 {
+		r.Unknown("R15.14", "typed readers and writers", token.NoPos, fmt.Sprintf("only %d typed readers/writers found", n))
 	}
 }
